@@ -82,3 +82,49 @@ def no_forall_drop():
         yield
     finally:
         L.ForallFormula.substitute_expressions = orig
+
+
+@contextlib.contextmanager
+def count_search_not_a_verdict():
+    """repaired twin for 'count: candidate search exhausted => False': while active, a False from count() on an OPEN tree
+    that was reached through the bounded insert_tree search (the search was entered during that very call) is turned into
+    "not ready". A False (or True) that count() returns without entering the search is left alone, so a different cause of
+    a premature verdict is not attributed to this mechanism. Yields a dict with what was observed."""
+    import isla.isla_predicates as P
+    from isla.language import SemPredEvalResult
+    seen = {"count_calls": 0, "false_after_search_on_open_tree": 0, "false_without_search_on_open_tree": 0}
+    orig_insert = P.insert_tree
+    orig_fun = P.COUNT_PREDICATE.eval_fun
+    depth = [0]
+
+    def insert_tree(*a, **k):
+        depth[0] += 1
+        return orig_insert(*a, **k)
+
+    def count(graph, in_tree, needle, num, *a, **k):
+        before = depth[0]
+        r = orig_fun(graph, in_tree, needle, num, *a, **k)
+        seen["count_calls"] += 1
+        try:
+            is_open = hasattr(in_tree, "is_open") and in_tree.is_open()
+            if is_open and r.ready() and r.false():
+                if depth[0] > before:
+                    seen["false_after_search_on_open_tree"] += 1
+                    return SemPredEvalResult(None)
+                seen["false_without_search_on_open_tree"] += 1
+        except Exception:
+            pass
+        return r
+    P.insert_tree = insert_tree
+    try:
+        object.__setattr__(P.COUNT_PREDICATE, "eval_fun", count)
+    except Exception:
+        P.COUNT_PREDICATE.eval_fun = count
+    try:
+        yield seen
+    finally:
+        P.insert_tree = orig_insert
+        try:
+            object.__setattr__(P.COUNT_PREDICATE, "eval_fun", orig_fun)
+        except Exception:
+            P.COUNT_PREDICATE.eval_fun = orig_fun
